@@ -127,7 +127,7 @@ def _start_worker(kind):
         env["UBSAN_OPTIONS"] = runner.UBSAN_OPTIONS
     pre.append(build.shim("simos"))
     env["LD_PRELOAD"] = ":".join(pre)
-    scratch = runner.fresh_dir("dbw-%d-%s" % (os.getpid(), kind))
+    scratch = runner.fresh_dir("dbw-%07d-%s" % (os.getpid(), kind))
     argv = [sys.executable, os.path.join(os.path.dirname(os.path.abspath(__file__)), "dbworker.py"),
             build.libdb(kind), os.path.join(build.build_dir(kind), "lib", "libdbhelper.so"), build.REPO, build.shim("simos"), REAL_DIR, scratch]
     return subprocess.Popen(argv, stdin=subprocess.PIPE, stdout=subprocess.PIPE, env=env, cwd=scratch)
